@@ -539,7 +539,7 @@ Fails(step, g, g2, cs) == {c \in cs \cap ClauseIds : ~Holds(c, step, g, g2)}
 (* instance only the transitions in which such a situation occurs are handed to the real code.  They are the  *)
 (* situations that a uniform sample of a large instance, or a random generator, reaches too rarely.           *)
 GoalNames == {"rematch_after_empty_round", "empty_round_after_match", "rate_boundary", "cap_with_other_auction",
-              "two_settle_in_block", "exact_remaining"}
+              "two_settle_in_block", "exact_remaining", "bid_on_sold_out", "nothing_sold_early_settle"}
 Goal(n, step, g) ==
   LET pre == step.pre
       m   == step.act
@@ -566,5 +566,12 @@ Goal(n, step, g) ==
     [] n = "exact_remaining" ->
          /\ m.a = "Bid" /\ m.id \in 0..(nA - 1) /\ pre.auctions[m.id + 1].type = "F" /\ ok
          /\ step.post.auctions[m.id + 1].remaining = 0
+    [] n = "bid_on_sold_out" ->           \* any bid, accepted or not, on a fixed-price auction that is open and sold out
+         /\ m.a = "Bid" /\ m.id \in 0..(nA - 1) /\ pre.auctions[m.id + 1].type = "F"
+         /\ pre.auctions[m.id + 1].status = "Started" /\ pre.auctions[m.id + 1].remaining = 0
+    [] n = "nothing_sold_early_settle" -> \* settled by the rate rule (rounds left) with a non-empty book of which nothing is sold
+         \E i \in 1..nA : /\ Closing(i) /\ RoundsLeft(i) /\ g.prevM[i] > 0 /\ Len(pre.bids[i]) > 0
+                           /\ ~ExtendDecision(pre.auctions[i], g.prevM[i], Cur(i))
+                           /\ Clearing(pre.bids[i], pre.allowed[i], pre.auctions[i].sellAmt).total = 0
     [] OTHER -> FALSE
 =============================================================================
